@@ -90,6 +90,9 @@ def check_entry(P, rep, en, payer_i, dest_i, gas_i, salt_pred, need_auth):
 
 
 def check(P, rep):
+    include_rules(P, rep, 'C18.R7', 'c14', lambda o: 'pay_gas' in (o.get('key') or '') + (o.get('site') or '') + o['what'],
+                  'gas service charges exactly the stated gas payment from the payer', 6)
+    include_rules(P, rep, 'C18.R7', 'c13', lambda o: True, 'gateway announces exactly the payload it was given', 5)
     check_entry(P, rep, 'deploy_remote_interchain_token', 1, 3, 4, lambda g, s: is_deploy_salt(s, g.P(1), g.P(2)), True)
     g = check_entry(P, rep, 'deploy_remote_canonical_token', 3, 2, 4, lambda g, s: is_canonical_salt(s, g.P(1)), False)
     if g is not None:
